@@ -105,6 +105,10 @@ pub enum Step {
     AcceptHeldDrop {
         ep: String,
     },
+    /// marker: the NEXT step is executed without letting the other tasks run first, so that what the two steps
+    /// produce (a datagram in the socket's queue and a registered accept call, say) is seen by the dispatcher task
+    /// in one and the same poll
+    Together {},
     Cancel {
         sock: String,
     },
